@@ -183,7 +183,7 @@ func printFileAnnotationAsMSVS(buffer *bytes.Buffer, f FileAnnotation) error {
 			message = "FAILURE"
 		}
 	}
-	_, _ = buffer.WriteString(path)
+	_, _ = buffer.WriteString(msvsLineBreakReplacer.Replace(path))
 	_, _ = buffer.WriteRune('(')
 	_, _ = buffer.WriteString(strconv.Itoa(line))
 	if column != 0 {
@@ -191,16 +191,21 @@ func printFileAnnotationAsMSVS(buffer *bytes.Buffer, f FileAnnotation) error {
 		_, _ = buffer.WriteString(strconv.Itoa(column))
 	}
 	_, _ = buffer.WriteString(") : error ")
-	_, _ = buffer.WriteString(typeString)
+	_, _ = buffer.WriteString(msvsLineBreakReplacer.Replace(typeString))
 	_, _ = buffer.WriteString(" : ")
-	_, _ = buffer.WriteString(message)
+	_, _ = buffer.WriteString(msvsLineBreakReplacer.Replace(message))
 	if pluginName := f.PluginName(); pluginName != "" {
 		_, _ = buffer.WriteString(" (")
-		_, _ = buffer.WriteString(pluginName)
+		_, _ = buffer.WriteString(msvsLineBreakReplacer.Replace(pluginName))
 		_, _ = buffer.WriteRune(')')
 	}
 	return nil
 }
+
+// The MSVS format is parsed by Visual Studio and MSBuild one line at a time and has no
+// escape mechanism: a line break inside a message would end the diagnostic early and turn
+// the rest of the message into an unrelated line, so line breaks are printed as spaces.
+var msvsLineBreakReplacer = strings.NewReplacer("\r", " ", "\n", " ")
 
 func printFileAnnotationAsJSON(buffer *bytes.Buffer, f FileAnnotation) error {
 	data, err := json.Marshal(newExternalFileAnnotation(f))
